@@ -442,6 +442,10 @@ class Ctx:
                 return self.length_of_local(x.a)
             if x.k == "call" and x.a.fn is fn and not x.a.dest["p"]:
                 return self.length_of_local(x.a.dest["l"])
+            if x.k == "field" and x.a.k == "call" and x.a.a.fn is fn and not x.a.a.dest["p"] and str(x.b) in ("0", "1"):
+                tl = self.tuple_len(x.a.a.dest["l"], int(x.b), depth + 1)     # half of a split_at
+                if tl is not None:
+                    return tl
         return lin_var(("expr", deep_repr(e)))
 
 
